@@ -127,6 +127,19 @@ def cases(tier, inst):
                             if n >= 7 and (base == "join" or form == "infer"):
                                 continue
                             yield (node, order, base, form, caching)
+    # branch conditions that are plain constants: alternative(True) is the "otherwise" branch, refinement(False) never fires
+    for n in range(2, (4 if tier == "quick" else 5) + 1):
+        for sh in binary_shapes(n):
+            node = label(sh, [0])
+            for j in range(1, n):
+                for value in (True, False):
+                    for base in ("one", "join"):
+                        for form in ("an", "infer"):
+                            yield ("const", node, "ra", base, form, True, ((j, value),))
+            if n >= 3:
+                for j, k_ in itertools.combinations(range(1, n), 2):
+                    yield ("const", node, "ra", "one", "infer", True, ((j, True), (k_, False)))
+                    yield ("const", node, "ar" if has_both(node) else "ra", "one", "an", True, ((j, False), (k_, True)))
     # two variables x, y; every node's condition is over x only, over y only or a comparison of both (all assignments
     # of these kinds); conclusions name both variables; an `assignment` is a pair (x, y)
     for n in range(1, (3 if tier == "quick" else 4) + 1):
@@ -262,7 +275,7 @@ def kjoin_make_and_eval_twice(case, inst):
     return run_isolated(body, caching=caching)
 
 
-def build_tree(node, x, y, views, order, inst, inner=None):
+def build_tree(node, x, y, views, order, inst, inner=None, consts=None):
     """`inner`: None when the node starts a chain (base or refinement), else the forest of the alternatives of the chain
     it belongs to that are written inside its block."""
     i, ref, alt = node
@@ -271,7 +284,7 @@ def build_tree(node, x, y, views, order, inst, inner=None):
     def cond(j):
         # every branch binds the variables its conclusion uses (as in the documented examples): in the join base the
         # branch condition mentions y too (several conditions to refinement()/alternative() are chained with AND)
-        c = [x.t[j] == inst.v(1)]
+        c = [x.t[j] == inst.v(1)] if not consts or j not in consts else [consts[j]]     # (a plain bool: "otherwise")
         if y is not None:
             c.append(y.p >= inst.v(1))
         return c
@@ -279,12 +292,12 @@ def build_tree(node, x, y, views, order, inst, inner=None):
     def do_ref():
         if ref is not None:
             with refinement(*cond(ref[0])):
-                build_tree(ref, x, y, views, order, inst)
+                build_tree(ref, x, y, views, order, inst, consts=consts)
 
     def write(forest, chain):
         for j, children in forest:
             with alternative(*cond(chain[j][0])):
-                build_tree(chain[j], x, y, views, order, inst, inner=(children, chain))
+                build_tree(chain[j], x, y, views, order, inst, inner=(children, chain), consts=consts)
 
     def do_alt():
         if inner is not None:
@@ -321,13 +334,20 @@ def build_tree(node, x, y, views, order, inst, inner=None):
 
 def make_and_eval_twice(case, inst):
     """build the rule query of `case` on fresh data and evaluate it twice -> ([obs1, obs2], expected)"""
-    node, order, base, form, caching = case
+    consts = None
+    if case[0] == "const":
+        _, node, order, base, form, caching, consts = case
+        consts = dict(consts)
+    else:
+        node, order, base, form, caching = case
     n = size(node)
 
     def body():
         xs = [W.Item(t=tuple(inst.v(v) for v in val), tag=f"v{''.join(map(str, val))}")
               for val in itertools.product((1, 2), repeat=n)]
-        vals = {id(o): val for o, val in zip(xs, itertools.product((1, 2), repeat=n))}
+        # (a branch whose condition is the constant True / False fires / does not fire whatever the object's bit says)
+        fix = lambda val: tuple((1 if consts[j] else 2) if consts and j in consts else v for j, v in enumerate(val))   # noqa: E731
+        vals = {id(o): fix(val) for o, val in zip(xs, itertools.product((1, 2), repeat=n))}
         ys = [W.Item(p=inst.v(1), tag="y0"), W.Item(p=inst.v(2), tag="y1")] if base == "join" else None
         exp = []
         for o in xs:
@@ -344,7 +364,7 @@ def make_and_eval_twice(case, inst):
                 bc = and_(c0, y.p >= inst.v(1)) if ys else c0
                 q = (infer if form == "infer" else an)(entity(views, bc))
             with rule_mode(q):
-                build_tree(node, x, y, views, order, inst)
+                build_tree(node, x, y, views, order, inst, consts=consts)
         except Exception as e:
             return [("build",) + exc_obs(e)], exp
         out = []
@@ -492,6 +512,11 @@ def run_case(case, inst):
         out, exp = kjoin_make_and_eval_twice(case, inst)
         order, base, form = "ra", "kjoin:" + "/".join(kinds) + ("+bind" if base_binds else "") + (
             "+concl=" + case[4] if len(case) == 6 else ""), "an"
+    elif case[0] == "const":
+        _, node, order, base, form, caching, consts = case
+        n = size(node)
+        out, exp = make_and_eval_twice(case, inst)
+        base = base + ":const=" + ",".join(f"{j}{'T' if v else 'F'}" for j, v in consts)
     else:
         node, order, base, form, caching = case
         n = size(node)
@@ -588,9 +613,15 @@ def describe(case, inst):
                 "# xs = one Item per valuation of the x-kind bits, zs = for every x one Item(ref=x) per valuation of the z-kind "
                 "bits; q = an(entity(views := let(View), x.t[0] == 1)); conclusions Add(views, Made(a=x, b=i+1[, c=z]))\n"
                 "rows1 = list(q.evaluate()); rows2 = list(q.evaluate())   # expected: eqlmc.props.c12.rdr_join")
-    node, order, base, form, caching = case
+    note = ""
+    if case[0] == "const":
+        _, node, order, base, form, caching, consts = case
+        note = ("# the condition x.t[j] == 1 of these branches is replaced by a plain constant: "
+                + ", ".join(f"branch {j}: {v}" for j, v in consts) + "\n")
+    else:
+        node, order, base, form, caching = case
     n = size(node)
-    return (f"{'enable' if caching else 'disable'}_caching()\n"
+    return (note + f"{'enable' if caching else 'disable'}_caching()\n"
             f"xs = [Item(t=val) for val in itertools.product(({inst.v(1)}, {inst.v(2)}), repeat={n})]"
             + (f"; ys = [Item(p={inst.v(1)}), Item(p={inst.v(2)})]" if base == "join" else "") + "\n"
             f"with symbolic_mode(): x = let(Item, xs); " + ("y = let(Item, ys); " if base == "join" else "")
